@@ -12,6 +12,7 @@ import (
 	"sort"
 	"strings"
 	"sync"
+	"sync/atomic"
 	"syscall"
 	"time"
 
@@ -942,6 +943,51 @@ func opConc(c *wire.Case, res *wire.Result) {
 	}()
 	var wg sync.WaitGroup
 	start := make(chan struct{})
+	// Mode "slow-input": one more compilation reads its source from a named pipe whose writer delivers it only when
+	// every other call of the round has returned (or after 20 s). A call that is alone returns at once; it must not
+	// wait for a compilation that is waiting for its input.
+	var slowDone chan struct{}
+	othersDone := make(chan struct{})
+	var slowLate atomic.Bool
+	var slowErr atomic.Value
+	if c.Mode == "slow-input" && len(c.Srcs) > 0 {
+		dir, err := os.MkdirTemp("", "vw-slow-*")
+		if err == nil {
+			defer os.RemoveAll(dir)
+			fifo := filepath.Join(dir, "src.vore")
+			if syscall.Mkfifo(fifo, 0o644) == nil {
+				slowDone = make(chan struct{})
+				opened := make(chan struct{})
+				go func() {
+					f, err := os.OpenFile(fifo, os.O_WRONLY, 0) // returns when the reader has opened its end
+					close(opened)
+					if err != nil {
+						return
+					}
+					select {
+					case <-othersDone:
+					case <-time.After(20 * time.Second):
+						slowLate.Store(true)
+					}
+					f.Write(c.Srcs[0])
+					f.Close()
+				}()
+				go func() {
+					defer close(slowDone)
+					defer func() {
+						if r := recover(); r != nil {
+							slowErr.Store(fmt.Sprint("panic: ", r))
+						}
+					}()
+					if _, err := libvore.CompileFile(fifo); err != nil {
+						slowErr.Store(err.Error())
+					}
+				}()
+				<-opened
+				time.Sleep(150 * time.Millisecond) // let the reader get as far as its first read
+			}
+		}
+	}
 	t0 := time.Now()
 	for gi := 0; gi < g; gi++ {
 		wg.Add(1)
@@ -977,8 +1023,18 @@ func opConc(c *wire.Case, res *wire.Result) {
 	}
 	close(start)
 	wg.Wait()
+	close(othersDone)
 	res.Calls = calls
 	res.Counters = map[string]int{"yields": int(yieldsTaken.Load())}
+	if slowDone != nil {
+		<-slowDone
+		res.Counters["slow_input_compilations"] = 1
+		if slowLate.Load() {
+			res.Mismatch = "slow-input: the other calls of the round did not return while one compilation was waiting for its source on a named pipe; they returned only after the source was delivered, 20 s later"
+		} else if e, _ := slowErr.Load().(string); e != "" && !strings.Contains(e, "Error") {
+			res.Counters["slow_input_failed"] = 1
+		}
+	}
 	for i := range slots {
 		if slots[i].v != nil && bcDigest(slots[i].v) != before[i] {
 			res.Counters["bytecode_changed"]++
